@@ -39,13 +39,31 @@ open Cnfgen.Gen (RSlot ROp RProg)
 
 /-- T-C20.5a  The resource skeletons that the translator regenerates from the CURRENT
 cnfgen/utils/solver.py (order of the calls to tempfile / Popen / communicate / open / read / close /
-os.unlink, and their try / `except OSError: pass` / finally nesting) are exactly the programs all
-theorems below speak about.  Removing a `finally`, moving an `unlink`, reordering two calls or
-adding a handler changes the generated term and breaks this proof. -/
-theorem current_source_is_documented :
-    Gen.solverProg_satsolve_stdin_stdout = progOf .current .stdinStdout ∧
-    Gen.solverProg_satsolve_filein_stdout = progOf .current .fileInStdout ∧
-    Gen.solverProg_satsolve_filein_fileout = progOf .current .fileInFileOut := by decide
+os.unlink, and their try / `except OSError: pass` / finally nesting) are one of the two reviewed
+snapshots: the source with the defects C20-R1 / C20-R2 (`Variant.current`) or the source with the
+proposed patch (`Variant.patched`).  Removing a `finally`, moving an `unlink`, reordering two calls,
+narrowing or adding a handler changes the generated term and breaks this proof. -/
+theorem source_is_a_reviewed_snapshot : sourceVariant.isSome = true := by decide
+
+/-- T-C20.5a'  … and the programs all theorems below speak about (`progOf v`) ARE the regenerated
+skeletons, for the variant `v` that `sourceVariant` reports. -/
+theorem current_source_is_documented (v : Variant) (h : sourceVariant = some v) :
+    Gen.solverProg_satsolve_stdin_stdout = progOf v .stdinStdout ∧
+    Gen.solverProg_satsolve_filein_stdout = progOf v .fileInStdout ∧
+    Gen.solverProg_satsolve_filein_fileout = progOf v .fileInFileOut := by
+  unfold sourceVariant at h
+  split at h
+  · rename_i hc
+    injection h with h; subst h; exact hc
+  · split at h
+    · rename_i hp
+      injection h with h; subst h; exact hp
+    · cases h
+
+/-- non-vacuity, and the record of what /repo is today: `some .current` while C20-R1 / C20-R2 are open,
+`some .patched` once `notes/C20_proposed.patch` (or an equivalent change) has landed — both are accepted,
+the correspondence (`frun 2 …`) follows whichever it is -/
+example : sourceVariant = some .current ∨ sourceVariant = some .patched := by decide
 
 /-- T-C20.5b  `CNF.solve` returns `sat_solve(self, …)` unchanged and `CNF.is_satisfiable` returns its
 first component (the bodies of the two methods, regenerated from cnfgen/formula/cnfio.py) -/
